@@ -613,6 +613,107 @@ async fn race(run: &mut Run, net: &Net, rng: &mut Rng, rounds: usize) {
     }
 }
 
+// ---------------------------------------------------------------------------------------------
+// which transport objects a PeerConnection creates per transport mode (model: `sectionTransportFlags`)
+
+async fn connect_pair(mode: rustrtc::TransportMode, video: bool) -> anyhow::Result<Vec<bool>> {
+    use rustrtc::{MediaKind, PeerConnection, RtcConfiguration, TransceiverDirection};
+    let mk = || { let mut c = RtcConfiguration::default(); c.transport_mode = mode.clone(); PeerConnection::new(c) };
+    let (pc1, pc2) = (mk(), mk());
+    for pc in [&pc1, &pc2] {
+        pc.add_transceiver(MediaKind::Audio, TransceiverDirection::SendRecv);
+        if video { pc.add_transceiver(MediaKind::Video, TransceiverDirection::SendRecv); }
+    }
+    let _ = pc1.create_offer().await?;
+    pc1.wait_for_gathering_complete().await;
+    let offer = pc1.create_offer().await?;
+    pc1.set_local_description(offer.clone())?;
+    pc2.set_remote_description(offer).await?;
+    let _ = pc2.create_answer().await?;
+    pc2.wait_for_gathering_complete().await;
+    let answer = pc2.create_answer().await?;
+    pc2.set_local_description(answer.clone())?;
+    if std::env::var("VH_DEBUG_PC").is_ok() { eprintln!("OFFER\n{}\nANSWER\n{}", pc1.local_description().unwrap().to_sdp_string(), answer.to_sdp_string()); }
+    pc1.set_remote_description(answer).await?;
+    tokio::try_join!(pc1.wait_for_connected(), pc2.wait_for_connected())?;
+    let mut flags = vec![];
+    for pc in [&pc1, &pc2] {
+        let (held, attached) = pc.verif_rtp_transports();
+        for t in held.iter().chain(attached.iter().flatten()) { flags.push(t.verif_registry_snapshot(&[]).srtp_required); }
+    }
+    pc1.close();
+    pc2.close();
+    Ok(flags)
+}
+
+/// SDES-SRTP mode: one PeerConnection OFFERING to a SIP-style RTP/SAVP peer whose answer is canned
+/// (audio, or audio + video).  (An SDES-mode *answerer* goes to `Failed` on the unchanged tree because the
+/// transport is started — and `setup_sdes` needs the local crypto line — before the answer is set; that is
+/// outside C14 and is reported to the coordinator.)
+async fn answer_sdes_offer(video: bool) -> anyhow::Result<Vec<bool>> {
+    use rustrtc::{MediaKind, PeerConnection, RtcConfiguration, SdpType, SessionDescription, TransceiverDirection, TransportMode};
+    let mut c = RtcConfiguration::default();
+    c.transport_mode = TransportMode::Srtp;
+    let pc = PeerConnection::new(c);
+    pc.add_transceiver(MediaKind::Audio, TransceiverDirection::SendRecv);
+    if video { pc.add_transceiver(MediaKind::Video, TransceiverDirection::SendRecv); }
+    let _ = pc.create_offer().await?;
+    pc.wait_for_gathering_complete().await;
+    let offer = pc.create_offer().await?;
+    pc.set_local_description(offer)?;
+    let mut sdp = String::from("v=0\r\no=root 1 1 IN IP4 127.0.0.1\r\ns=-\r\nc=IN IP4 127.0.0.1\r\nt=0 0\r\n\
+m=audio 19960 RTP/SAVP 111\r\n\
+a=mid:0\r\n\
+a=crypto:1 AES_CM_128_HMAC_SHA1_80 inline:a976SJLwniPcMiUP27gdcLYYcPm0bHZcghV84DsK\r\n\
+a=rtpmap:111 opus/48000/2\r\na=sendrecv\r\n");
+    if video {
+        sdp.push_str("m=video 19962 RTP/SAVP 96\r\n\
+a=mid:1\r\n\
+a=crypto:1 AES_CM_128_HMAC_SHA1_80 inline:b976SJLwniPcMiUP27gdcLYYcPm0bHZcghV84DsK\r\n\
+a=rtpmap:96 VP8/90000\r\na=sendrecv\r\n");
+    }
+    let answer = SessionDescription::parse(SdpType::Answer, &sdp)?;
+    pc.set_remote_description(answer).await?;
+    pc.wait_for_connected().await?;
+    let (held, attached) = pc.verif_rtp_transports();
+    let flags = held.iter().chain(attached.iter().flatten()).map(|t| t.verif_registry_snapshot(&[]).srtp_required).collect();
+    pc.close();
+    Ok(flags)
+}
+
+async fn pc_modes(run: &mut Run) {
+    use rustrtc::TransportMode;
+    for (mode, name) in [(TransportMode::WebRtc, "webrtc"), (TransportMode::Srtp, "srtp"), (TransportMode::Rtp, "rtp")] {
+        for video in [false, true] {
+            let case = format!("mode {name} {}", if video { "audio+video" } else { "audio" });
+            // (connection set-up occasionally fails for reasons outside C14 — retried, then skipped and counted)
+            let mut res = Err(());
+            for _attempt in 0..4 {
+                let fut = async { if name == "srtp" { answer_sdes_offer(video).await } else { connect_pair(mode.clone(), video).await } };
+                match tokio::time::timeout(std::time::Duration::from_secs(30), fut).await {
+                    Ok(Ok(f)) => { res = Ok(Ok(f)); break; }
+                    Ok(Err(e)) => { run.count("pc_connect_attempt_failed"); res = Ok(Err(e)); }
+                    Err(_) => { run.count("pc_connect_attempt_timeout"); res = Err(()); }
+                }
+            }
+            match res {
+                Ok(Ok(flags)) if !flags.is_empty() => {
+                    let mut d: Vec<u8> = flags.iter().map(|f| *f as u8).collect();
+                    d.sort(); d.dedup();
+                    run.case("mode", name, &d.iter().map(|x| x.to_string()).collect::<String>(), true);
+                    run.count_n("pc_transport_objects_checked", flags.len() as u64);
+                    if name != "rtp" && flags.iter().any(|f| !*f) {
+                        run.fail(&format!("mode:non-mandatory-transport-in-{name}-mode"), &case, &format!("srtp_required flags of the transports held/attached: {flags:?}"));
+                    }
+                }
+                Ok(Ok(_)) => run.count("pc_no_transport_created"),
+                Ok(Err(e)) => { run.count("pc_connect_failed"); run.notes.insert(format!("pc_connect_error_{name}_{}", video as u8), serde_json::json!(e.to_string())); }
+                Err(()) => run.count("pc_connect_timeout"),
+            }
+        }
+    }
+}
+
 pub fn run(args: &Args) {
     let rt = tokio::runtime::Builder::new_multi_thread().worker_threads(4).enable_all().build().unwrap();
     let mut run = Run::new("c14", &args.out);
@@ -625,6 +726,8 @@ pub fn run(args: &Args) {
             for (s, d) in out.fails { println!("ORACLE-FAIL {s} {d}"); }
             return;
         }
+        // (0) real PeerConnection pairs per transport mode: srtp_required of every transport object created
+        pc_modes(&mut run).await;
         // (1) exhaustive: all sequences of length L over the 14-symbol alphabet × (source, target) mandatory flags
         let len = if args.tier_thorough { 5 } else { 4 };
         let total = NSYM.pow(len as u32);
